@@ -506,6 +506,14 @@ void HyperedgeImprover::removeZeroLengthEdges(HyperedgeTreeNode *self,
                             edge->conn->id());
 #endif
 
+#ifdef ADAPTAGRAMS_VERIF
+                    if (verif_hyper_log)
+                    {
+                        fprintf(verif_hyper_log, "H2 JJMERGE %u %u %u\n",
+                                self->junction->id(), other->junction->id(),
+                                edge->conn->id());
+                    }
+#endif
                     // Delete one of the junctions.
                     m_deleted_junctions.push_back(other->junction);
                     m_hyperedge_tree_junctions.erase(other->junction);
@@ -531,10 +539,27 @@ void HyperedgeImprover::removeZeroLengthEdges(HyperedgeTreeNode *self,
 
                 if (target)
                 {
+#ifdef ADAPTAGRAMS_VERIF
+                    if (verif_hyper_log)
+                    {
+                        fprintf(verif_hyper_log, "H2 CONTRACT %p %p %ld "
+                                "%.17g %.17g %.17g %.17g\n",
+                                (void *) target, (void *) source, (edge->conn) ?
+                                (long) edge->conn->id() : -1L,
+                                target->point.x, target->point.y,
+                                source->point.x, source->point.y);
+                    }
+#endif
                     edge->disconnectEdge();
                     delete edge;
                     target->spliceEdgesFrom(source);
                     delete source;
+#ifdef ADAPTAGRAMS_VERIF
+                    if (verif_hyper_log)
+                    {
+                        verifHyperAdj(verif_hyper_log, target);
+                    }
+#endif
                     removeZeroLengthEdges(target, ignored);
                     return;
                 }
@@ -925,6 +950,26 @@ void HyperedgeImprover::execute(bool canMakeMajorChanges)
         m_hyperedge_tree_roots.erase(junction);
     }
 
+#ifdef ADAPTAGRAMS_VERIF
+    if (verif_hyper_log)
+    {
+        fprintf(verif_hyper_log, "H2 IMPROVE-BEGIN %d %u\n",
+                (int) m_can_make_major_changes,
+                (unsigned) m_hyperedge_tree_roots.size());
+        for (ConnRefList::iterator curr = m_router->connRefs.begin();
+                curr != m_router->connRefs.end(); ++curr)
+        {
+            verifHyperConn(verif_hyper_log, "C", *curr);
+        }
+        for (JunctionSet::iterator curr = m_hyperedge_tree_roots.begin();
+                curr != m_hyperedge_tree_roots.end(); ++curr)
+        {
+            verifHyperDumpTree(verif_hyper_log, "before",
+                    m_hyperedge_tree_junctions[*curr]);
+        }
+    }
+#endif
+
     TIMER_START(m_router, tmHyperedgeImprove);
 
     // Debug output.
@@ -971,6 +1016,18 @@ void HyperedgeImprover::execute(bool canMakeMajorChanges)
         m_root_shift_segments.clear();
         m_all_shift_segments.clear();
     }
+
+#ifdef ADAPTAGRAMS_VERIF
+    if (verif_hyper_log)
+    {
+        for (JunctionSet::iterator curr = m_hyperedge_tree_roots.begin();
+                curr != m_hyperedge_tree_roots.end(); ++curr)
+        {
+            verifHyperDumpTree(verif_hyper_log, "after",
+                    m_hyperedge_tree_junctions[*curr]);
+        }
+    }
+#endif
 
     // Rewrite updated connector attachments to junctions.
     if (m_can_make_major_changes)
@@ -1019,13 +1076,37 @@ void HyperedgeImprover::execute(bool canMakeMajorChanges)
         // Clear visibility assigned for connection pins.
         (*curr)->assignConnectionPinVisibility(false);
 
+#ifdef ADAPTAGRAMS_VERIF
+        if (verif_hyper_log)
+        {
+            fprintf(verif_hyper_log, "H2 DELC %u\n", (*curr)->id());
+        }
+#endif
         m_router->deleteConnector(*curr);
     }
     for (JunctionRefList::iterator curr = m_deleted_junctions.begin();
             curr != m_deleted_junctions.end(); ++curr)
     {
+#ifdef ADAPTAGRAMS_VERIF
+        if (verif_hyper_log)
+        {
+            fprintf(verif_hyper_log, "H2 DELJ %u\n", (*curr)->id());
+        }
+#endif
         m_router->deleteJunction(*curr);
     }
+
+#ifdef ADAPTAGRAMS_VERIF
+    if (verif_hyper_log)
+    {
+        for (ConnRefList::iterator curr = m_router->connRefs.begin();
+                curr != m_router->connRefs.end(); ++curr)
+        {
+            verifHyperConn(verif_hyper_log, "C", *curr);
+        }
+        fprintf(verif_hyper_log, "H2 IMPROVE-END\n");
+    }
+#endif
 
     TIMER_STOP(m_router);
 }
@@ -1142,13 +1223,40 @@ HyperedgeTreeNode *HyperedgeImprover::moveJunctionAlongCommonEdge(
             // We also move the junction there and remove it from the
             // current node.
             HyperedgeTreeNode *targetNode = commonEdges[0]->followFrom(self);
+#ifdef ADAPTAGRAMS_VERIF
+            if (verif_hyper_log)
+            {
+                fprintf(verif_hyper_log, "H2 MOVEJ %u %p %p %u %u\n",
+                        self->junction->id(), (void *) self,
+                        (void *) targetNode, (unsigned) commonEdges.size(),
+                        (unsigned) otherEdges.size());
+            }
+#endif
             for (size_t i = 1; i < commonEdges.size(); ++i)
             {
                 HyperedgeTreeNode *thisNode = commonEdges[i]->followFrom(self);
+#ifdef ADAPTAGRAMS_VERIF
+                if (verif_hyper_log)
+                {
+                    fprintf(verif_hyper_log, "H2 FOLD %p %p %p %ld "
+                            "%.17g %.17g %.17g %.17g\n",
+                            (void *) self, (void *) targetNode,
+                            (void *) thisNode, (commonEdges[i]->conn) ?
+                            (long) commonEdges[i]->conn->id() : -1L,
+                            targetNode->point.x, targetNode->point.y,
+                            thisNode->point.x, thisNode->point.y);
+                }
+#endif
                 commonEdges[i]->disconnectEdge();
                 targetNode->spliceEdgesFrom(thisNode);
                 delete thisNode;
                 delete commonEdges[i];
+#ifdef ADAPTAGRAMS_VERIF
+                if (verif_hyper_log)
+                {
+                    verifHyperAdj(verif_hyper_log, targetNode);
+                }
+#endif
             }
             targetNode->junction = self->junction;
             self->junction = nullptr;
@@ -1157,6 +1265,15 @@ HyperedgeTreeNode *HyperedgeImprover::moveJunctionAlongCommonEdge(
             {
                 // Nothing else connected to this node, so remove the node
                 // and the edge to the target node.
+#ifdef ADAPTAGRAMS_VERIF
+                if (verif_hyper_log)
+                {
+                    fprintf(verif_hyper_log, "H2 DROPLEAF %p %p %ld\n",
+                            (void *) self, (void *) targetNode,
+                            (commonEdges[0]->conn) ?
+                            (long) commonEdges[0]->conn->id() : -1L);
+                }
+#endif
                 commonEdges[0]->disconnectEdge();
 
                 delete commonEdges[0];
@@ -1167,7 +1284,25 @@ HyperedgeTreeNode *HyperedgeImprover::moveJunctionAlongCommonEdge(
                 // We need to mark commonEdges[0] as being from the connector
                 // of the otherEdges[0].
                 commonEdges[0]->conn = otherEdges[0]->conn;
+#ifdef ADAPTAGRAMS_VERIF
+                if (verif_hyper_log)
+                {
+                    fprintf(verif_hyper_log, "H2 RELABEL %p %p %ld\n",
+                            (void *) self, (void *) targetNode,
+                            (commonEdges[0]->conn) ?
+                            (long) commonEdges[0]->conn->id() : -1L);
+                    verifHyperAdj(verif_hyper_log, self);
+                }
+#endif
             }
+#ifdef ADAPTAGRAMS_VERIF
+            if (verif_hyper_log)
+            {
+                verifHyperAdj(verif_hyper_log, targetNode);
+                fprintf(verif_hyper_log, "H2 MOVEJ-END %u %p\n",
+                        targetNode->junction->id(), (void *) targetNode);
+            }
+#endif
             newSelf = targetNode;
 
             break;
@@ -1184,13 +1319,40 @@ HyperedgeTreeNode *HyperedgeImprover::moveJunctionAlongCommonEdge(
             // all connections from the other common nodes to this node.
             // We will also create a new junction there.
             HyperedgeTreeNode *targetNode = commonEdges[0]->followFrom(self);
+#ifdef ADAPTAGRAMS_VERIF
+            if (verif_hyper_log)
+            {
+                fprintf(verif_hyper_log, "H2 SPLITJ %u %p %p %u %u\n",
+                        self->junction->id(), (void *) self,
+                        (void *) targetNode, (unsigned) commonEdges.size(),
+                        (unsigned) otherEdges.size());
+            }
+#endif
             for (size_t i = 1; i < commonEdges.size(); ++i)
             {
                 HyperedgeTreeNode *thisNode = commonEdges[i]->followFrom(self);
+#ifdef ADAPTAGRAMS_VERIF
+                if (verif_hyper_log)
+                {
+                    fprintf(verif_hyper_log, "H2 FOLD %p %p %p %ld "
+                            "%.17g %.17g %.17g %.17g\n",
+                            (void *) self, (void *) targetNode,
+                            (void *) thisNode, (commonEdges[i]->conn) ?
+                            (long) commonEdges[i]->conn->id() : -1L,
+                            targetNode->point.x, targetNode->point.y,
+                            thisNode->point.x, thisNode->point.y);
+                }
+#endif
                 commonEdges[i]->disconnectEdge();
                 targetNode->spliceEdgesFrom(thisNode);
                 delete thisNode;
                 delete commonEdges[i];
+#ifdef ADAPTAGRAMS_VERIF
+                if (verif_hyper_log)
+                {
+                    verifHyperAdj(verif_hyper_log, targetNode);
+                }
+#endif
             }
 
             // Create the additional junction at the target node for
@@ -1214,6 +1376,17 @@ HyperedgeTreeNode *HyperedgeImprover::moveJunctionAlongCommonEdge(
             conn->updateEndPoint(VertID::tar, tarConnend);
             commonEdges[0]->conn = conn;
             m_new_connectors.push_back(conn);
+#ifdef ADAPTAGRAMS_VERIF
+            if (verif_hyper_log)
+            {
+                fprintf(verif_hyper_log, "H2 SPLITJ-END %u %p %u %p %u\n",
+                        self->junction->id(), (void *) self,
+                        targetNode->junction->id(), (void *) targetNode,
+                        conn->id());
+                verifHyperAdj(verif_hyper_log, self);
+                verifHyperAdj(verif_hyper_log, targetNode);
+            }
+#endif
 
 #ifdef MAJOR_HYPEREDGE_IMPROVEMENT_DEBUG
             fprintf(stderr, "HyperedgeImprover: Split junction %u:\n",
